@@ -17,6 +17,12 @@ EXTRA.update({'C01_15': ['C07'], 'C01_16': ['C05'], 'C02_15': ['C10'], 'C02_16':
               'C05_15': ['C04'], 'C05_16': ['C13'], 'C06_15': ['C10'], 'C06_16': ['C04'], 'C09_15': ['C03'], 'C10_15': ['C09'], 'C11_15': ['C19'],
               'C11_16': ['C04'], 'C13_16': ['C14'], 'C14_15': ['C10'], 'C14_16': ['C04'], 'C15_15': ['C14'], 'C16_15': ['C14'], 'C17_15': ['C03'],
               'C19_15': ['C11'], 'C20_15': ['C06'], 'C20_16': ['C06'], 'C12_15': ['C01'], 'C12_16': ['C09']})
+EXTRA.update({'C16_17': ['C09'], 'C17_17': ['C03'], 'C17_18': ['C20'], 'C11_17': ['C19', 'C15'], 'C11_18': ['C04', 'C06', 'C19'], 'C19_17': ['C06', 'C11'],
+              'C19_18': ['C09'], 'C18_17': ['C09'], 'C18_18': ['C03', 'C07'], 'C01_17': ['C05'], 'C04_17': ['C13'], 'C12_17': ['C09'], 'C12_18': ['C13'],
+              'C14_17': ['C05', 'C04']})
+EXTRA.update({'C02_17': ['C07'], 'C02_18': ['C10'], 'C03_17': ['C06'], 'C03_18': ['C20', 'C17'], 'C05_17': ['C01'], 'C05_18': ['C08', 'C09'],
+              'C06_17': ['C04', 'C20'], 'C06_18': ['C09', 'C11'], 'C07_18': ['C14'], 'C08_17': ['C09'], 'C13_17': ['C19'], 'C13_18': ['C10'],
+              'C15_17': ['C10'], 'C20_17': ['C06', 'C04'], 'C20_18': ['C16']})
 only = sys.argv[1:]
 for patch in sorted(glob.glob('/tmp/mut/C??_*.patch.diff')):
     mid = os.path.basename(patch)[:-len('.patch.diff')]
